@@ -11,7 +11,7 @@ from ..peval import Evaluator, Model, Unsupported, RaisedInModel
 from ..source import FuncInfo, norm, SourceTree
 from .common import params
 
-EXPLANATION = "(R1) every write inside a prange body of plot/utils.py classified: no shared read-modify-write (private histograms reduced after the loop), batch mode followed over several thread counts; (R2) kernel index logic over all orderings of a coordinate against the bin edges; (R5) histogram2d/_parse_limit/finmin/finmax interpreted over token Arrays with symbolic numpy values: explicit limits converted to the axis unit and log10'd on log axes, a missing limit is the FINITE min/max and the automatic range strictly contains the data; (R6) axis separation, default layer = ones, one kernel slot per layer, mean = slot/counts, mask = (counts == 0). Automatic limits are folded under both assumptions about NaNs in the data (an unfiltered minimum is exposed when only infinities are present); the kernel fold inlines helpers, follows per-thread accumulator views and runs both sides of a size threshold for every thread count. (R7) Vector inputs are binned by a norm that is total (rows of exact zeros give 0, not nan); flat accumulators reshaped on return are read back in (ny, nx). R2 also requires accumulators typed independently of the input (float64); R5 covers explicit limits equal to 0. The same Array object may appear in several layers (each keeps its slot and reduction); a test on a layer value inside the kernel (np.isnan) is explored both ways: the point is binned either way."
+EXPLANATION = "(C05.R8) drawing wrappers never modify the arrays they draw (the returned data is the drawn data): provenance analysis from each wrapper, incl. library calls with copy=False. (R1) every write inside a prange body of plot/utils.py classified: no shared read-modify-write (private histograms reduced after the loop), batch mode followed over several thread counts; (R2) kernel index logic over all orderings of a coordinate against the bin edges; (R5) histogram2d/_parse_limit/finmin/finmax interpreted over token Arrays with symbolic numpy values: explicit limits converted to the axis unit and log10'd on log axes, a missing limit is the FINITE min/max and the automatic range strictly contains the data; (R6) axis separation, default layer = ones, one kernel slot per layer, mean = slot/counts, mask = (counts == 0). Automatic limits are folded under both assumptions about NaNs in the data (an unfiltered minimum is exposed when only infinities are present); the kernel fold inlines helpers, follows per-thread accumulator views and runs both sides of a size threshold for every thread count. (R7) Vector inputs are binned by a norm that is total (rows of exact zeros give 0, not nan); flat accumulators reshaped on return are read back in (ny, nx). R2 also requires accumulators typed independently of the input (float64); R5 covers explicit limits equal to 0. The same Array object may appear in several layers (each keeps its slot and reduction); a test on a layer value inside the kernel (np.isnan) is explored both ways: the point is binned either way."
 NOT_DECIDED = 'floating-point edge effects at bin boundaries; numba scheduling (covered by the write classification, not by execution)'
 TRUSTED = ('CPython ast', 'numba prange semantics', 'the interpreter sa/models.py and sa/symnp.py')
 TECHNIQUE = 'static analysis: parallel-loop write classification, finite ordering tables, abstract interpretation of histogram2d over symbolic numpy values'
@@ -45,6 +45,9 @@ def r1_no_shared_rmw(run, tree):
                       nontrivial=False)
     except Exception as e:
         run.unresolved("fixture::racy", "", "fixture failed: %s" % e)
+    from .common import check_memoised_results_immutable
+    check_memoised_results_immutable(run, tree, ["plot/histogram2d.py::histogram2d", "plot/histogram1d.py::histogram1d"],
+                                     "the second histogram2d call of the same resolution starts from the sums and counts of the first: counts are not conserved")
     fi = tree.func(KERNEL)
     run.analysed(fi)
     par = is_parallel(tree, fi)
@@ -433,4 +436,18 @@ def r_norm_corners(run, tree):
     qs.check_norm_corner_cases(run, tree)
 
 
-RULES = [r1_no_shared_rmw, r2_kernel_index_logic, r5_limits, r6_r7_layers, r_norm_corners]
+def r_wrappers_pure(run, tree):
+    from . import c19
+    run.rule("C05.R8", "drawing the result does not change it: no drawing wrapper of plot/wrappers.py stores into, masks in place or otherwise mutates the arrays it is handed "
+             "(they are the arrays of the returned Plot.layers)", "D3 provenance from every wrapper with (x, y, z) parameters", "", floor=6)
+    c19.check_wrappers_pure(run, tree)
+
+
+def r_layer_views(run, tree):
+    from . import layer_folds as lf
+    run.rule("C05.R9", "component views and copies of a Layer keep its options and have dictionaries of their own (shared with C19/C03/C11): histogram2d(x, y, layer, layer.x) "
+             "bins the vector layer and its component separately", "D7 fold of the Layer class", "", floor=4)
+    lf.check_layer_copies(run, tree)
+
+
+RULES = [r_layer_views, r_wrappers_pure, r1_no_shared_rmw, r2_kernel_index_logic, r5_limits, r6_r7_layers, r_norm_corners]
